@@ -464,7 +464,9 @@ def runCase (st : DSt) : List String :=
           s!"{tag} res exec {showNats rs.s.execLog}",
           s!"{tag} res done {showNats rs.s.doneLog}",
           s!"{tag} res st " ++ " ".intercalate (l.own.map fun i => s!"{i}:{showSt (rs.s.st i)}"),
-          s!"{tag} res fcalls " ++ " ".intercalate (leaves.map fun i => s!"{i}:{rs.fcalls i}"),
+          -- a job that is still out when the run is cut has not called the function yet
+          s!"{tag} res fcalls " ++ " ".intercalate (leaves.map fun i =>
+              s!"{i}:{if rs.s.st i == .out then 0 else rs.fcalls i}"),
           s!"{tag} res out " ++ " ".intercalate (l.own.map fun i => s!"{i}:" ++ showExp viewRes l.id envR (rs.s.out i)) ]
       | _, _ => [s!"{tag} unreachable"]
     let refused := cuts.any fun c => loadRefused st.rc (c.l.vlink.map (·.1)) (snapshot st.rc c.s)
